@@ -16,6 +16,7 @@ import (
 	"strings"
 	"sync"
 	"sync/atomic"
+	"time"
 )
 
 // ---------------------------------------------------------------- client body
@@ -32,11 +33,32 @@ type scriptBody struct {
 	done   *atomic.Bool // set when ServeHTTP has returned
 	late   atomic.Int64 // reads after ServeHTTP returned
 	gate   func(op string)
+
+	// pause: after pauseAt bytes have been delivered the next Read signals `paused` and blocks until `release`
+	pauseAt   int
+	delivered int
+	paused    chan struct{}
+	release   chan struct{}
+	pauseOnce sync.Once
+	relOnce   sync.Once
+}
+
+func (b *scriptBody) releasePause() {
+	if b.release != nil {
+		b.relOnce.Do(func() { close(b.release) })
+	}
 }
 
 func (b *scriptBody) Read(p []byte) (int, error) {
 	if b.gate != nil {
 		b.gate("cread")
+	}
+	if b.paused != nil && b.delivered == b.pauseAt && len(p) > 0 {
+		b.pauseOnce.Do(func() { close(b.paused) })
+		select {
+		case <-b.release:
+		case <-time.After(3 * time.Second):
+		}
 	}
 	b.reads.Add(1)
 	if b.done != nil && b.done.Load() {
@@ -62,8 +84,12 @@ func (b *scriptBody) Read(p []byte) (int, error) {
 	if n > len(b.data) {
 		n = len(b.data)
 	}
+	if b.paused != nil && b.delivered < b.pauseAt && b.delivered+n > b.pauseAt {
+		n = b.pauseAt - b.delivered
+	}
 	copy(p, b.data[:n])
 	b.data = b.data[n:]
+	b.delivered += n
 	return n, nil
 }
 
